@@ -111,6 +111,19 @@ func (c *Ctx) modTargets(env *SpecEnv, cl *Clause) []modTarget {
 		// allof(Type.field): the field of every object of that type (family-wide footprint)
 		if call, ok := x.(*SCall); ok {
 			if fid, ok := call.Fun.(*SIdent); ok && fid.Name == "allof" && len(call.Args) == 1 {
+				if eid, isId := call.Args[0].(*SIdent); isId {
+					// allof(T): every element of type T of every slice / array / pointee (e.g. allof(byte))
+					et := c.resolveTypeTextIn(eid.Name, env.pkg)
+					if eid.Name == "byte" || eid.Name == "rune" {
+						et = types.Universe.Lookup(eid.Name).Type() // families are keyed by the spelling the source uses
+					}
+					var fams [][2]string
+					c.leafFamilies(c.elemPrefix(et), et, &fams)
+					for _, f := range fams {
+						out = append(out, modTarget{fam: f[0], leaf: f[1], all: true})
+					}
+					return
+				}
 				sel, ok := call.Args[0].(*SSel)
 				tid, ok2 := (interface{})(nil), false
 				if ok {
